@@ -392,7 +392,43 @@ func (e *C06) judge(ctx *core.Ctx, c c06Case, now time.Time) {
 			ctx.Violation("C06", "C06.failed-sticky", attrs, c)
 		}
 	}
+	if c06After != nil {
+		c06After(ctx, c, res, now, attrs)
+	}
 }
+
+var c06After func(ctx *core.Ctx, c c06Case, res *strategy.Result, now time.Time, attrs map[string]string)
+
+// c06RestartSpanKept: "the span between the first and the latest observed restart": once a restart
+// has been observed, a later sync whose evaluated pods carry no restart (the restarted pod is
+// being replaced) must not forget when the first one was seen.
+func c06RestartSpanKept(ctx *core.Ctx, c c06Case, res *strategy.Result, now time.Time, attrs map[string]string) {
+	rc := kit.Cond(res.NewStatus, v1.ConditionTypePodRestarting)
+	if rc == nil || rc.Status != corev1.ConditionTrue {
+		return
+	}
+	c2 := c
+	c2.Pods = []c06Pod{{UpToDate: true, StartAgo: 10 * time.Minute}}
+	c2.RestartSpan, c2.CanaryAge = nil, nil
+	ann2, params2 := c06Build(c2, now.Add(time.Minute))
+	params2.Replicaset.Status = *res.NewStatus.DeepCopy()
+	params2.NewStatus = res.NewStatus.DeepCopy()
+	var res2 *strategy.Result
+	func() {
+		defer func() { _ = recover() }()
+		res2 = strategy.VerifManageCanaryStatus(ann2, params2, now.Add(time.Minute))
+	}()
+	ctx.Count("C06.restart-span-second-call")
+	if res2 == nil {
+		return
+	}
+	rc2 := kit.Cond(res2.NewStatus, v1.ConditionTypePodRestarting)
+	if rc2 == nil || rc2.Status != corev1.ConditionTrue || !rc2.LastTransitionTime.Equal(&rc.LastTransitionTime) {
+		ctx.Violation("C06", "C06.restart-span-kept", attrs, map[string]any{"case": c, "before": fmt.Sprintf("%+v", rc), "after": fmt.Sprintf("%+v", rc2)})
+	}
+}
+
+func init() { c06After = c06RestartSpanKept }
 
 func minInt(a, b int) int {
 	if a < b {
